@@ -95,10 +95,10 @@ impl Part {
     /// (requested cases, wall budget of the batch)
     fn budget(&self, tier: Tier) -> (u64, Duration) {
         let (q, t) = match self {
-            Part::C15d => (400_000, 6_000_000),
-            Part::C13d => (400_000, 6_000_000),
-            Part::C02d => (400_000, 6_000_000),
-            Part::C19p => (1_000_000, 20_000_000),
+            Part::C15d => (2_500_000, 6_000_000),
+            Part::C13d => (400_000, 8_000_000),
+            Part::C02d => (400_000, 5_000_000),
+            Part::C19p => (24_000_000, 150_000_000),
         };
         match tier {
             Tier::Quick => (q, Duration::from_secs(40)),
@@ -108,7 +108,7 @@ impl Part {
 }
 
 /// Cap on the number of history hashes kept for `distinct_nontrivial`.
-const DISTINCT_CAP: usize = 24_000_000;
+const DISTINCT_CAP: usize = 48_000_000;
 
 thread_local! {
     static LAST_PANIC_AT: RefCell<String> = const { RefCell::new(String::new()) };
@@ -296,6 +296,7 @@ struct Agg {
     samples: Vec<(u64, Value)>,
     budget_exhausted: bool,
     hashes: Vec<u64>,
+    hash_cap: usize,
     classes: BTreeMap<String, ClassAgg>,
     harness_errors: Vec<String>,
 }
@@ -316,7 +317,7 @@ impl Agg {
         add_counts(&mut self.counters, &out.counters);
         if out.nontrivial {
             self.nontrivial += 1;
-            if self.hashes.len() < DISTINCT_CAP {
+            if self.hashes.len() < self.hash_cap {
                 self.hashes.push(out.hash);
             }
         }
@@ -415,7 +416,10 @@ impl Agg {
 
 fn worker(part: Part, tier: Tier, base_seed: u64, runs: u64, jobs: u64, k: u64, budget: Duration) -> Agg {
     let started = Instant::now();
-    let mut agg = Agg::default();
+    let mut agg = Agg {
+        hash_cap: DISTINCT_CAP / jobs as usize,
+        ..Default::default()
+    };
     let mut idx = k;
     let mut since_check = 0u32;
     while idx < runs {
@@ -664,7 +668,7 @@ fn cmd_run(args: &[String]) -> i32 {
             "budget_exhausted": agg.budget_exhausted,
         },
         "distinct_nontrivial": distinct,
-        "rule": format!("{} (hash set capped at {} entries per worker)", part.rule(), DISTINCT_CAP),
+        "rule": format!("{} (the hash set is capped at {} entries, split evenly over the workers)", part.rule(), DISTINCT_CAP),
         "violations": violations,
         "bad_runs": bad_runs, "harness_errors": harness_errors,
         "batch_wall_s": (batch_wall * 100.0).round() / 100.0,
